@@ -97,10 +97,10 @@ theorem step_group (w : World) (h : Inv w) (c : Nat) (name : String) (ids : List
     | ok chem' =>
       exact ⟨rfl, obs_redefine w hs chem' _, inv_redefine h hs chem' _ (by intro hd; cases hd)⟩
 
-theorem step_newChemIx (w : World) (h : Inv w) (c : Nat) :
-    (w.step (.newChemIx c)).2 = (w.obs.step (.newChemIx c)).2 ∧
-    (w.step (.newChemIx c)).1.obs = (w.obs.step (.newChemIx c)).1 ∧
-    Inv (w.step (.newChemIx c)).1 := by
+theorem step_newChemIx (w : World) (h : Inv w) (c : Nat) (ph : Char) :
+    (w.step (.newChemIx c ph)).2 = (w.obs.step (.newChemIx c ph)).2 ∧
+    (w.step (.newChemIx c ph)).1.obs = (w.obs.step (.newChemIx c ph)).1 ∧
+    Inv (w.step (.newChemIx c ph)).1 := by
   simp only [World.step, PWorld.step, obs_chems_get]
   cases hs : w.chems[c]? with
   | none => exact ⟨rfl, rfl, h⟩
@@ -197,9 +197,12 @@ theorem step_transfer (w : World) (h : Inv w) (l r : Nat) (add : Bool) :
         | some sr =>
           simp only [Option.map_some]
           split
+          · -- same chemicals object: no memo is touched, the receiver may grow in place
+            split
+            · exact ⟨rfl, rfl, ⟨h.chem, h.mat, h.bound⟩⟩
+            · exact ⟨rfl, rfl, h⟩
           · split
-            · exact ⟨rfl, rfl, inv_setData h _ _ _⟩
-            · rename_i rowL rowR _ _ _ _ _
+            · rename_i rowL rowR _ _ _ _
               obtain ⟨o1, o2, o3, o4⟩ := overlap_spec sl (h.chem sl (List.mem_of_getElem? hsl))
                 ((nonzeroPositions rowR).map fun i => sr.cas.getD i "")
               rw [← o1]
@@ -211,9 +214,9 @@ theorem step_transfer (w : World) (h : Inv w) (l r : Nat) (add : Bool) :
               generalize transferRow rowL rowR add (nonzeroPositions rowR) res = T
               obtain ⟨row', oe⟩ := T
               cases oe with
-              | some e => exact ⟨rfl, by rw [obs_setData, ho], inv_setData hv _ _ _⟩
-              | none => exact ⟨rfl, by rw [obs_setData, ho], inv_setData hv _ _ _⟩
-          · exact ⟨rfl, rfl, h⟩
+              | some e => exact ⟨rfl, by simp only [World.putIx, PWorld.putIx, World.obs] at ho ⊢; rw [PWorld.mk.injEq] at ho ⊢; exact ⟨ho.1, rfl⟩, ⟨hv.chem, hv.mat, hv.bound⟩⟩
+              | none => exact ⟨rfl, by simp only [World.putIx, PWorld.putIx, World.obs] at ho ⊢; rw [PWorld.mk.injEq] at ho ⊢; exact ⟨ho.1, rfl⟩, ⟨hv.chem, hv.mat, hv.bound⟩⟩
+            · exact ⟨rfl, rfl, h⟩
 
 /-- One step of the memoising world is one step of the memo-free specification: same
 answer, same tables and data afterwards, and every memoised pair is still correct. -/
@@ -223,7 +226,7 @@ theorem step_sim (w : World) (h : Inv w) (op : Op) :
   | compile specs => exact step_compile w h specs
   | alias c id a => exact step_alias w h c id a
   | group c name ids comp => exact step_group w h c name ids comp
-  | newChemIx c => exact step_newChemIx w h c
+  | newChemIx c ph => exact step_newChemIx w h c ph
   | newMatIx c ps => exact step_newMatIx w h c ps
   | get i key => exact step_get w h i key
   | set i key d => exact step_set w h i key d
@@ -291,7 +294,7 @@ def exSpecs : List Spec :=
    ⟨"DME", "115-10-6", ["C2H6O", "ether"]⟩]
 
 def exHistory : List Op :=
-  [.compile exSpecs, .group 0 "Alc" ["Ethanol", "DME"] (some [1, 3]), .newChemIx 0, .newMatIx 0 ['l', 'g'],
+  [.compile exSpecs, .group 0 "Alc" ["Ethanol", "DME"] (some [1, 3]), .newChemIx 0 'l', .newMatIx 0 ['l', 'g'],
    .set 0 (.leaf .ell) (.vec [1, 2, 4]), .get 0 (.leaf (.str "Alc")), .get 0 (.leaf (.str "Alc")),
    .set 0 (.leaf (.str "Alc")) (.scalar 8), .get 0 (.tup [.leaf (.str "H2O"), .leaf (.str "Alc")]),
    .set 1 (.tup [.leaf (.str "l"), .leaf .ell]) (.vec [1, 2, 4]),
@@ -731,6 +734,36 @@ theorem phase_lookup (ps : List Char) (c : Char) :
 def sublistsOf : List Char → List (List Char)
   | [] => [[]]
   | x :: t => sublistsOf t ++ (sublistsOf t).map (x :: ·)
+
+/-! ### Phases that grow in place -/
+
+/-- `_expand_phases`: in the grown phase tuple every label finds, at its new row number, the row
+it had before (an empty row if the label is new). -/
+theorem expandRows_get (size : Nat) (ps ps' : List Char) (data : List Row) (p : Char) (i : Nat)
+    (h : idxOf p ps' = some i) :
+    (expandRows size ps ps' data)[i]? =
+      some (match idxOf p ps with
+            | some j => data.getD j (zeroRow size)
+            | none => zeroRow size) := by
+  simp only [expandRows, List.getElem?_map, idxOf_some ps' p i h, Option.map_some]
+  cases idxOf p ps <;> rfl
+
+/-- A liquid/solid indexer (with a sibling sharing its memo) grows a gas phase in place by
+`mix_from`: `('l', Water)` was memoised as row 0 before; afterwards the receiver answers from
+its new row 1 (memo of `('g','l','s')`), the sibling still from row 0 (memo of `('l','s')`). -/
+def exGrow : List Op :=
+  [.compile exSpecs, .newMatIx 0 ['l', 's'], .newMatIx 0 ['l', 's'], .newChemIx 0 'g',
+   .set 0 (.leaf (.str "l")) (.vec [10, 2, 0]), .set 1 (.leaf (.str "l")) (.vec [7, 0, 0]),
+   .set 2 (.leaf .ell) (.vec [1, 5, 0]),
+   .get 0 (.tup [.leaf (.str "l"), .leaf (.str "Water")]), .mixFrom 0 2,
+   .get 0 (.tup [.leaf (.str "l"), .leaf (.str "Water")]), .get 1 (.tup [.leaf (.str "l"), .leaf (.str "Water")]),
+   .get 0 (.tup [.leaf (.str "g"), .leaf (.str "Ethanol")])]
+
+example : (World.run {} exGrow).2.drop 7 =
+    [.val (.scalar 10), .state ⟨0, some ['g', 'l', 's'], [[1, 5, 0], [10, 2, 0], [0, 0, 0]], 'l'⟩,
+     .val (.scalar 10), .val (.scalar 7), .val (.scalar 5)] ∧
+    (World.run {} exGrow).1.mcaches.map (·.1) = [(0, ['l', 's']), (0, ['g', 'l', 's'])] := by
+  decide +kernel
 
 /-- The 32 possible phase tuples (subsets of `L S g l s` in sorted order). -/
 def allPhaseTuples : List (List Char) := sublistsOf validPhases
